@@ -26,14 +26,18 @@ pub proof fn lemma_fields_bounded(v: u64)
     assert((v >> 40) & 0xffff < 0x10000) by(bit_vector);
 }
 
-// constants of the form 1u64 << N used by the packed-field masks
+// constants of the form 1u64 << N used by packed-field masks (rustc evaluates them; the SMT solver needs the values)
 pub mod shl_lemmas {
     use vstd::prelude::*;
     pub broadcast proof fn lemma_shl_one(b: usize)
         ensures b == 24 ==> #[trigger] (1u64 << b) == 0x1000000u64, b == 16 ==> (1u64 << b) == 0x10000u64,
     { assert((1u64 << 24usize) == 0x1000000u64) by(bit_vector); assert((1u64 << 16usize) == 0x10000u64) by(bit_vector); }
+    pub broadcast proof fn lemma_shl_one_i32(b: i32)
+        ensures b == 63 ==> #[trigger] (1u64 << b) == 0x8000_0000_0000_0000u64,
+    { assert((1u64 << 63i32) == 0x8000_0000_0000_0000u64) by(bit_vector); }
+    pub broadcast group shl_group { lemma_shl_one, lemma_shl_one_i32 }
 }
-broadcast use shl_lemmas::lemma_shl_one;
+broadcast use shl_lemmas::shl_group;
 // the order the property names: n + i/l as a rational, compared by cross-multiplication
 pub open spec fn e_cmp(a: u64, b: u64) -> Ordering {
     if e_num(a) < e_num(b) { Ordering::Less } else if e_num(a) > e_num(b) { Ordering::Greater }
